@@ -26,7 +26,8 @@ impl DialogEntry {
     pub fn new(peer_cseq: Option<u32>) -> Self {
         Self {
             backlog: Default::default(),
-            next_peer_cseq: peer_cseq.map(|peer_cseq| peer_cseq + 1),
+            // CSeq numbers end at u32::MAX, nothing higher can follow
+            next_peer_cseq: peer_cseq.map(|peer_cseq| peer_cseq.saturating_add(1)),
             usages: Default::default(),
         }
     }
@@ -92,17 +93,20 @@ impl Layer for DialogLayer {
                         // in the correct order and distribute it to the usages as well.
                         let mut requests = vec![request.take()];
 
-                        for next_cseq in (request_cseq + 1).. {
+                        // (CSeq numbers end at u32::MAX, the scan and the next expected number stop there)
+                        let mut last_cseq = request_cseq;
+
+                        while let Some(next_cseq) = last_cseq.checked_add(1) {
                             if let Some(message) = dialog_entry.backlog.remove(&next_cseq) {
                                 requests.push(message);
+                                last_cseq = next_cseq;
                             } else {
                                 break;
                             }
                         }
 
                         // set the next expected cseq to the one of last message we handle + 1
-                        dialog_entry.next_peer_cseq =
-                            Some(requests.last().unwrap().base_headers.cseq.cseq + 1);
+                        dialog_entry.next_peer_cseq = Some(last_cseq.saturating_add(1));
 
                         (usages, requests)
                     }
